@@ -184,7 +184,7 @@ func C01real(r *ev.Report) {
 	pts := Points()
 	reps := Reps(nLam)
 
-	r.Rule("real curve: Multiply for every (point alphabet x scalings) x scalar alphabet K (0..small, n-1-j, all 2^i, 2^i+-1, n-1-2^i, around n/2 and 2^255, limb products); oracle = sum of precomputed 2^i P in the affine math/big model; plus Multiply(k) against the literal k-fold Add chain on the implementation for k <= chain bound; nil scalar; non-trivial = k >= 2^64")
+	r.Rule("real curve: Multiply for every (point alphabet x scalings) x scalar alphabet K (0..small, n-1-j, all 2^i, 2^i+-1, n-1-2^i, around n/2 and 2^255, limb products); oracle = sum of precomputed 2^i P in the affine math/big model; plus every window digit (widths 4..8, every value, every position, adjacent digits around the signed-recoding threshold) on G and H; plus Multiply(k) against the literal k-fold Add chain on the implementation for k <= chain bound; nil scalar; non-trivial = k >= 2^64")
 	r.Bound("scalars", len(ks))
 	r.Bound("representations", len(reps))
 	r.Bound("chain_bound", chain)
@@ -280,6 +280,30 @@ func C01real(r *ev.Report) {
 	})
 
 	r.States.Add(int64(len(ext) * len(short)))
+
+	// window digits: every digit value at every position a windowed, comb or table-driven multiplication could
+	// single out (a wrong table entry is wrong for exactly one (digit, position)), on G in two scalings and on H
+	ws := alpha.WindowScalars()
+	lams := Lambdas()
+	wreps := []Rep{{ref.G(), big.NewInt(1)}, {ref.G(), lams[len(lams)/2]}, {HPoint(), big.NewInt(1)}}
+	wtabs := []*mulTable{newMulTable(ref.G()), nil, newMulTable(HPoint())}
+	wtabs[1] = wtabs[0]
+	r.Bound("window_digit_scalars", len(ws))
+
+	r.ParFor(len(ws), func(_, i int) {
+		for j, rep := range wreps {
+			r.Transitions.Add(1)
+			r.Evals.Add(1)
+
+			if key, detail := c01Case(rep, ws[i], wtabs[j].mul(ws[i])); key != "" {
+				c := Case{"op": "Multiply", "k": hx(ws[i])}
+				repCase("p", rep, c)
+				r.Violation(key, detail, c)
+			}
+		}
+	})
+
+	r.States.Add(int64(len(ws) * len(wreps)))
 
 	c := Case{"op": "Multiply", "k": hx(new(big.Int).Sub(ref.N, big.NewInt(1)))}
 	repCase("p", reps[3].Rep, c)
